@@ -1,6 +1,98 @@
-(* Properties/C03.v — Circuit breaker follows its documented three-state machine. *)
+(* Properties/C03.v — Circuit breaker follows its documented three-state machine.
+   Nothing but statements, each closed by [exact] and followed by Print Assumptions.
+   [cb_run] is the Gallina mirror of the circuitbreaker package (bit ring, time buckets, float64
+   rates, states, transitions, builder); [spec_brun] is the same three-state machine over the
+   documented windows (a plain log of the results recorded in the current state). *)
 From FS Require Import Spec.BreakerSpec Proofs.BreakerProofs Corr.C03.
 
-Theorem C03_placeholder : rate 23 40 = 57.
-Proof. vm_compute. reflexivity. Qed.
-Print Assumptions C03_placeholder.
+(* 1. Count-based configurations: for every builder configuration in the guard and every history,
+      state, admission decisions, metrics, remaining delay and events of the code's machine are
+      those of the documented machine ("the last N results" window). *)
+Theorem C03_counting_breaker_refines_windows : forall c h,
+  bcfg_ok c = true -> b_fperiod c = 0 -> bhist_ok 0 h = true -> cb_run c h = spec_brun c h.
+Proof. exact counting_breaker_refines_windows. Qed.
+Print Assumptions C03_counting_breaker_refines_windows.
+
+(* 2. Time-based windows (partial: the full refinement of the ten-bucket ring to the documented
+      window is validated by the correspondence, not proved): the running summary the thresholds
+      read always equals the sum of the ten buckets ... *)
+Theorem C03_timed_summary_is_bucket_sum_partial : forall t now v,
+  ts_consistent t -> ts_consistent (ts_record t now v).
+Proof. exact timed_stats_summary_is_bucket_sum. Qed.
+Print Assumptions C03_timed_summary_is_bucket_sum_partial.
+
+(* ... and the documented window itself: a result at least ten slices (the period) older than
+   the newest never counts, one less than nine slices older always does. *)
+Theorem C03_timed_window_documented : forall nanos tnew v log t b,
+  1 <= nanos -> t <= tnew ->
+  let a := {| a_kind := WTimed nanos; a_log := (tnew, v) :: log |} in
+  In (t, b) ((tnew, v) :: log) ->
+  (10 * nanos <= tnew - t -> ~ In (t, b) (a_window a)) /\ (tnew - t < 9 * nanos -> In (t, b) (a_window a)).
+Proof. exact timed_window_documented. Qed.
+Print Assumptions C03_timed_window_documented.
+
+(* 3. Open for exactly the delay; the first request at or after it half-opens and takes a trial permit. *)
+Theorem C03_open_for_exactly_delay : forall S (I : stats_impl S) c a st d now,
+  1 <= halfopen_capacity c ->
+  (now - st < d ->
+     try_acquire I c (Open a st d) now = (false, Open a st d, [])
+     /\ remaining_delay (Open a st d) now = d - (now - st))
+  /\ (d <= now - st ->
+     fst (fst (try_acquire I c (Open a st d) now)) = true
+     /\ snd (fst (try_acquire I c (Open a st d) now)) = HalfOpen (si_new_half I c) (halfopen_capacity c - 1)
+     /\ remaining_delay (Open a st d) now = 0).
+Proof. exact @open_for_exactly_delay. Qed.
+Print Assumptions C03_open_for_exactly_delay.
+
+(* 4. A closed breaker opens exactly when the configured threshold over its window is met. *)
+Theorem C03_closed_opens_iff : forall S (I : stats_impl S) c st now er,
+  state_code (fst (check_threshold I c (Closed st) now er)) = 1 <->
+  (b_fexec c <= si_exec I st /\
+   ((b_frate c <> 0 /\ b_frate c <= frate I st) \/ (b_frate c = 0 /\ b_fthr c <= si_fail I st))).
+Proof. exact @closed_opens_iff. Qed.
+Print Assumptions C03_closed_opens_iff.
+
+(* 5. Half-open decides within the trial capacity (count thresholds). *)
+Theorem C03_half_open_decides_within_capacity : forall c a p now er,
+  bcfg_ok c = true -> b_frate c = 0 -> (b_fexec c = 0 \/ b_fexec c = b_fcap c) ->
+  (b_sthr c = 0 -> b_scap c = 0) ->
+  a_kind a = WCount (halfopen_capacity c) ->
+  Z.of_nat (length (a_log a)) >= halfopen_capacity c ->
+  state_code (fst (check_threshold abs_impl c (HalfOpen a p) now er)) <> 2.
+Proof. exact half_open_decides_within_capacity. Qed.
+Print Assumptions C03_half_open_decides_within_capacity.
+
+(* 5b. Rate thresholds: failure rate + success rate >= 100 for every window of up to 256 results
+       (kernel-evaluated sweep, bound stated), so either failureRate >= r or successRate > 100 - r. *)
+Theorem C03_rate_complement_upto_256 : forall f n,
+  1 <= n <= 256 -> 0 <= f <= n -> 100 <= rate f n + rate (n - f) n.
+Proof. exact rate_complement. Qed.
+Print Assumptions C03_rate_complement_upto_256.
+
+(* 6. Events: over any history, for any stats implementation, the emitted events form one
+      connected path from the initial state; old <> new; the listener matching the new state
+      fires first, then the generic one, with the same (old state's) metrics. *)
+Theorem C03_history_events_form_path : forall S (I : stats_impl S) c h s,
+  events_path (state_code s) (flat_map ob_events (brun I c s h)) = Some (state_code (bfinal I c s h)).
+Proof. exact @history_events_form_path. Qed.
+Print Assumptions C03_history_events_form_path.
+
+(* 7. Used by the correspondence (count-based configurations): a trace equal to the model's
+      equals the documented machine's. *)
+Theorem C03_checker_sound_counting : forall id calls h obs,
+  b_fperiod (build_bcfg calls) = 0 ->
+  agrees cb_run (CaseHist id calls h obs) = agrees spec_brun (CaseHist id calls h obs).
+Proof.
+  intros id calls h obs Hp. cbn [agrees]. unfold hist_guard.
+  destruct (bcfg_ok (build_bcfg calls)) eqn:E1; [|reflexivity].
+  destruct (bhist_ok 0 h) eqn:E2; [|reflexivity]. cbn [andb].
+  rewrite (counting_breaker_refines_windows _ _ E1 Hp E2). reflexivity.
+Qed.
+Print Assumptions C03_checker_sound_counting.
+
+Example C03_guard_inhabited :
+  let c := build_bcfg [WithFailureThresholdRatio 2 3; WithSuccessThreshold 2; WithDelay 10] in
+  let h := [(5, BRecordFailure); (6, BRecordSuccess); (7, BRecordFailure); (8, BTryAcquire); (17, BTryAcquire);
+            (18, BRecordSuccess); (19, BRecordSuccess)] in
+  bcfg_ok c = true /\ bhist_ok 0 h = true /\ map ob_state (cb_run c h) = [0; 0; 1; 1; 2; 2; 0].
+Proof. vm_compute. auto. Qed.
